@@ -59,6 +59,22 @@ def rat_ok(obs, rat, shift=0):
         return False
 
 
+def warnings_off():
+    import warnings
+    cm = warnings.catch_warnings()
+    cm.__enter__()
+    warnings.simplefilter("ignore")
+
+    class _Ctx:
+        def __enter__(self_):
+            return self_
+
+        def __exit__(self_, *a):
+            cm.__exit__(*a)
+            return False
+    return _Ctx()
+
+
 class FileUnderTest:
     def __init__(self, root, feat):
         self.root, self.feat = root, feat
@@ -158,6 +174,18 @@ class FileUnderTest:
                 out["refresh"] = (got, ref, np.array_equal(
                     vals, np.asarray(ds[self.feat][:], dtype=float)[1:],
                     equal_nan=True))
+        # the same values held in memory (a dict-based dataset, as computed
+        # and temporary features are): summaries of its hierarchy child,
+        # whose parent filters nothing
+        out["memchild"] = None
+        if len(out["data"]):
+            with warnings_off():
+                md = dclab.new_dataset({self.feat: np.array(out["data"]),
+                                        "area_um": np.arange(
+                                            len(out["data"])) + 1.0})
+                mc = dclab.new_dataset(md)
+                mo = mc[self.feat]
+                out["memchild"] = (mo.min(), mo.max(), mo.mean())
         # (basin-backed and joined views at the end of a history only)
         out["derived"] = self.derived_views() if final else []
         return out
@@ -269,7 +297,9 @@ def _replay(job):
                     break
             if viol:
                 break
-            for reader in ("hdf5", "child"):
+            for reader in ("hdf5", "child", "memchild"):
+                if obs.get(reader) is None:
+                    continue
                 mn, mx, me = obs[reader]
                 bad = [nm for nm, o, r in (("min", mn, rec["min"]),
                                            ("max", mx, rec["max"]),
